@@ -37,6 +37,9 @@ fn main() {
         "C11" => props::delay::c11(),
         "C12" => props::lifecycle_check::c12(),
         "C13" => props::synctest::c13(),
+        "C16" => props::builder::c16(),
+        "C17" => props::hashorder::c17(),
+        "C18" => props::bounded::c18(),
         "C14" => props::codec::c14(),
         "worker-c14" => props::codec::worker(&args[2..]),
         other => {
